@@ -204,17 +204,17 @@ def coq_case(c):
 def model_phase_to_dict(v):
     """the val printed by run_phase -> the dict shape of c14_impl.run_phase"""
     if isinstance(v[0], Exc):
-        return dict(exc=v[0].code, singles=v[1])
-    live_done, live_nc, done, nc, logs, calls, singles = v
+        return dict(exc=v[0].code, singles=v[1], asc=sorted(v[2], key=repr))
+    live_done, live_nc, done, nc, logs, calls, singles, asc = v
     return dict(exc=None, live_done=sorted(live_done), live_nc=sorted(live_nc), done=sorted(done, key=repr),
-                nc=sorted(nc, key=repr), logs=logs, calls=sorted(calls), singles=singles)
+                nc=sorted(nc, key=repr), logs=logs, calls=sorted(calls), singles=singles, asc=sorted(asc, key=repr))
 
 
 def impl_phase_to_dict(o):
     if "exc" in o and o["exc"] is not None:
-        return dict(exc=o["exc"], singles=o["singles"])
+        return dict(exc=o["exc"], singles=o["singles"], asc=o["asc"])
     return dict(exc=None, live_done=o["live_done"], live_nc=o["live_nc"], done=o["done"], nc=o["nc"], logs=o["logs"],
-                calls=o["calls"], singles=o["singles"])
+                calls=o["calls"], singles=o["singles"], asc=o["asc"])
 
 
 def _add_json(d):
@@ -360,7 +360,7 @@ def run_oracle(case):
             singles.append(r)
         if not ph["inputs"] or len(set(ids)) != len(ids):
             # documented refusals: empty input, non-unique identifiers -> ValueError, nothing processed
-            out.append(dict(exc=2, singles=singles))
+            out.append(dict(exc=2, singles=singles, asc=sorted(singles, key=repr)))
             break
         for i, x, r in zip(ph["inputs"], ids, singles):
             if x in store and store[x][0] == "done":
@@ -373,7 +373,7 @@ def run_oracle(case):
         done = sorted(([x + ".json", x, r] for x, (k, r) in store.items() if k == "done"), key=repr)
         nc = sorted(([x + ".json", r] for x, (k, r) in store.items() if k == "nc"), key=repr)
         out.append(dict(exc=None, live_done=sorted(d[0] for d in done), live_nc=sorted(n[0] for n in nc), done=done, nc=nc,
-                        logs=logs, calls=sorted(calls), singles=singles))
+                        logs=logs, calls=sorted(calls), singles=singles, asc=sorted(singles, key=repr)))
     return out
 
 
@@ -542,6 +542,8 @@ def classify(case, ph_i, exp, got):
         return f"invocations-differ:{hz}"
     if got["singles"] != exp["singles"]:
         return f"single-call-differs:{hz}"
+    if got.get("asc") != exp.get("asc"):
+        return f"as_completed-differs:{hz}"
     if got["logs"] != exp["logs"]:
         return f"log-count:{hz}"
     return f"other:{hz}"
